@@ -242,6 +242,21 @@ def run_sample(ctx, kind, dlen, rlen, oplen, exclude):
     ctx.require(sorted(rules) == sorted(want) and all(
         str(rules[k]) == str(policy.RuleDefault(k, v).check)
         for k, v in want.items()), 'sample:uncommented-rules', detail=row)
+    # -- the sample as it is (every line a comment or blank) is a valid policy
+    # file for the library's own loader and defines nothing.  The symbolic
+    # text itself cannot be handed to the YAML parser; its line structure
+    # is established by _lexical above, so a concrete file with the same
+    # structure (the commented rule lines between comment and blank lines)
+    # stands in for it.
+    commented = '# a description\n# GET  /p\n' + '\n\n#\n'.join(
+        expected) + '\n\n'
+    if commented not in _DEPLOYED:
+        _DEPLOYED[commented] = _deploy(commented)
+    p1, p2 = _DEPLOYED[commented]
+    ctx.require(p1 is None, 'sample:commented-sample-does-not-load',
+                detail=dict(row, problem=p1))
+    ctx.require(p2 is None, 'sample:deployed-sample-breaks-enforce',
+                detail=dict(row, problem=p2))
     # -- JSON sample -----------------------------------------------------------
     jparts = list(generator._sort_and_format_by_section(policies, 'json'))
     jtext = '{\n    ' + ',\n    '.join(jparts) + '\n}\n'
@@ -250,6 +265,34 @@ def run_sample(ctx, kind, dlen, rlen, oplen, exclude):
     except Exception as exc:
         jl = repr(exc)
     ctx.require(jl == want, 'sample:json', detail=dict(row, got=repr(jl)))
+
+
+_DEPLOYED = {}
+
+
+def _deploy(commented):
+    """(problem loading the text, problem enforcing with it deployed); the
+    text is concrete, so one evaluation per distinct text and process."""
+    from oslo_policy import policy
+    try:
+        none = policy.Rules.load(commented)
+        p1 = None if dict(none) == {} else 'defines %r' % sorted(none)
+    except Exception as exc:
+        p1 = repr(exc)[:200]
+    env = common.PolicyEnv()
+    try:
+        env.write('policy.yaml', None, raw=commented)
+        enf = env.enforcer(defaults=[policy.RuleDefault('svc:plain',
+                                                        'role:x')])
+        try:
+            ok = (enf.enforce('svc:plain', {}, {'roles': ['x']}) is True and
+                  enf.enforce('svc:plain', {}, {'roles': []}) is False)
+            p2 = None if ok else 'wrong decision'
+        except Exception as exc:
+            p2 = repr(exc)[:200]
+    finally:
+        env.close()
+    return p1, p2
 
 
 def cubes_sample(tier, seed):
